@@ -229,10 +229,7 @@ Theorem C03_fault_contents_unchanged : forall (L : Type) (sem : (N -> option con
   (forall a b, (forall n, a n = b n) -> sem a = sem b) ->
   sem (view_new st0 old new) = sem (view_old st0) ->
   sem (visible (recover_with_crashes univ cr (r_fs (replace_exec v inuse fails i0 old new st0 live)))) = sem (view_old st0).
-Proof.
-  intros L sem v inuse fails i0 st0 old new univ live cr Hp Hext Heq.
-  exact (contents_unchanged L sem st0 old new _ Hext Heq (proj1 (fault_restart_atomic v inuse fails i0 st0 old new univ live cr Hp))).
-Qed.
+Proof. exact fault_contents_unchanged. Qed.
 Print Assumptions C03_fault_contents_unchanged.
 
 (* the LIVE file list (what running queries read) with the repaired delete loop: unchanged or completely swapped, never
